@@ -4,7 +4,7 @@
 // builds the harness with -race through a go build overlay, and explores, for every
 // scenario, all schedules up to the pre-emption bound by stateless depth-first search.
 // The search tree is kept here; executions are farmed out to a pool of harness worker
-// processes (GOMAXPROCS=1 each). In a worker the cooperative scheduler is invisible to
+// processes (GOMAXPROCS=2 each, see gomax). In a worker the cooperative scheduler is invisible to
 // the race detector, so every explored schedule is also checked for data races by
 // happens-before analysis (see vsched).
 package main
@@ -152,7 +152,7 @@ func startWorker() (*worker, error) {
 		return nil, err
 	}
 	cmd := exec.Command(harness, "-seed", fmt.Sprint(seedv))
-	cmd.Env = append(os.Environ(), "GOMAXPROCS=1", "C17_RACELOG="+logDir, "GORACE=log_path="+filepath.Join(logDir, "race")+" halt_on_error=0")
+	cmd.Env = append(os.Environ(), "GOMAXPROCS="+gomax(), "C17_RACELOG="+logDir, "GORACE=log_path="+filepath.Join(logDir, "race")+" halt_on_error=0")
 	in, err := cmd.StdinPipe()
 	if err != nil {
 		return nil, err
@@ -630,4 +630,16 @@ func sameTrace(a, b []point) bool {
 		}
 	}
 	return true
+}
+
+// gomax: the harness workers run with two Ps. Only one managed thread executes at any time (the
+// others spin in the scheduler), but with a single P the race detector was observed to stay silent
+// about conflicts between goroutines that take turns on that P (a whole class of seeded races - a
+// pool entry handed out twice, a conflict between a finished thread and one started later - was
+// reported with GOMAXPROCS >= 2 and not with 1).
+func gomax() string {
+	if s := os.Getenv("C17_GOMAXPROCS"); s != "" {
+		return s
+	}
+	return "2"
 }
